@@ -699,6 +699,7 @@ class Inliner:
         from .resolve import Scope
         self.Scope = Scope
         self.project = project
+        self.base_funcs = base_funcs
         self.new_funcs = {q: fi for q, fi in project.funcs.items() if q not in base_funcs and self.inlinable_decl(fi)}
         self.new_consts: Dict[str, ast.AST] = {}
         self.func_tables: Dict[str, object] = {}
@@ -819,9 +820,91 @@ class Inliner:
         # statements (an if/return chain becomes the if/else assignment it was extracted from); 3. what is left
         # (calls in conditionally evaluated positions) as conditional expressions
         n = self.rewrite_exprs(fi.node, sc, fi, plain_only=True)
+        n += self.inline_generators(fi, sc)
         n += self.splice(fi, sc)
         n += self.rewrite_exprs(fi.node, self.Scope(self.project, fi), fi, plain_only=False)
         return n
+
+    # `for x in _gen(args): BODY` with _gen a generator introduced after the pinned tree: the generator's code with BODY in place of each yield
+    def inline_generators(self, fi, sc) -> int:
+        count = [0]
+        me = self
+
+        def generator(q):
+            g = me.project.funcs.get(q)
+            if g is None or q in me.base_funcs or g.parent is not None or g.cls is not None or isinstance(g.node, ast.AsyncFunctionDef) or g.node.decorator_list:
+                return None
+            body = body_without_doc(g.node)
+            ys = [n for n in own_walk(g.node) if isinstance(n, (ast.Yield, ast.YieldFrom))]
+            if not ys or any(isinstance(n, ast.YieldFrom) for n in ys) or len(ys) > 3:
+                return None
+            if any(isinstance(n, (ast.Try, ast.With, ast.Global, ast.Nonlocal, ast.Await)) or (isinstance(n, ast.Return) and n.value is not None) for n in own_walk(g.node)):
+                return None
+            if nested_def_names(g.node) or sum(1 for _ in own_walk(g.node)) > 200:
+                return None
+            # every yield is a statement of its own
+            stmts_with_yield = [n for n in own_walk(g.node) if isinstance(n, ast.Expr) and isinstance(n.value, ast.Yield)]
+            if len(stmts_with_yield) != len(ys) or any(n.value.value is None for n in stmts_with_yield):
+                return None
+            return g
+
+        def block(stmts):
+            out = []
+            for st in stmts:
+                if isinstance(st, (ast.FunctionDef, ast.AsyncFunctionDef, ast.ClassDef)):
+                    out.append(st)
+                    continue
+                for fld in ("body", "orelse", "finalbody"):
+                    if getattr(st, fld, None):
+                        setattr(st, fld, block(getattr(st, fld)))
+                for h in getattr(st, "handlers", []) or []:
+                    h.body = block(h.body)
+                if isinstance(st, ast.For) and not st.orelse and isinstance(st.iter, ast.Call) and isinstance(st.target, ast.Name):
+                    q = sc.resolve_call(st.iter)
+                    g = generator(q) if q else None
+                    from .normalize2 import own_jumps
+                    if g is not None and q != fi.qualname and not own_jumps(st.body) and me.same_scope_stmt(g, fi, sc):
+                        try:
+                            binding = bind_call(g.node, st.iter, skip_first=False)
+                        except Bail:
+                            binding = None
+                        if binding is not None and all(simple_arg(v) for v in binding.values()) and not (assigned_in(g.node, imports=False) & set(binding)):
+                            me.counter += 1
+                            k = me.counter
+                            rename = {loc: f"{loc}__gen{k}" for loc in assigned_in(g.node, imports=False)}
+                            body = [copy.deepcopy(x) for x in body_without_doc(g.node)]
+                            body = [Rename(rename).visit(x) for x in body]
+                            body = [Subst(dict(binding)).visit(x) for x in body]
+
+                            def put(ss):
+                                res = []
+                                for x in ss:
+                                    if isinstance(x, ast.Expr) and isinstance(x.value, ast.Yield):
+                                        res.append(ast.Assign(targets=[ast.Name(id=st.target.id, ctx=ast.Store())], value=x.value.value))
+                                        res.extend(copy.deepcopy(st.body))
+                                        continue
+                                    if isinstance(x, ast.Return):
+                                        raise Bail("return in generator")
+                                    for fld in ("body", "orelse", "finalbody"):
+                                        if getattr(x, fld, None):
+                                            setattr(x, fld, put(getattr(x, fld)))
+                                    res.append(x)
+                                return res
+                            try:
+                                new = [at(x, st) for x in put(body)]
+                            except Bail:
+                                new = None
+                            if new is not None:
+                                out.extend(new)
+                                count[0] += 1
+                                me.log.append(f"{q} inlined as a generator into {fi.qualname}")
+                                continue
+                out.append(st)
+            return out
+        fi.node.body = block(fi.node.body)
+        if count[0]:
+            ast.fix_missing_locations(fi.node)
+        return count[0]
 
     # constants, format templates, expression-like helpers: anywhere in an expression
     def rewrite_exprs(self, root: ast.AST, sc, fi, plain_only: bool = False) -> int:
